@@ -1,6 +1,7 @@
 """C16 — tensor indexing, slicing, reshaping (DESIGN.md §4 C16)."""
 import itertools
 from vlib import Toks, lst
+from props import c16_hist
 
 ID = "C16"
 LEVEL = "proof"
@@ -26,12 +27,41 @@ OBLIGATIONS = [NS + t for t in [
     "gatherRows_spec", "gather_into_map_eq_gather", "gather_into_eq_gather", "gather_into_dims", "gather_into_get",
     # integral with distinct input / output scalar types
     "integralData_hom", "integralX_eq_prefix_sums", "wrap_exact", "integralWrapped_spec",
+    # range.h / dims.h helpers, remove_if over a pack, the vector form of stack as coded, arange, fills, factories
+    "range_valid_iff", "range_valid_slice", "makeRange_spec", "sliceRange_eq", "catDims_spec",
+    "removeIfLoopN_eq", "removeIfRowsN_eq", "copyRow_eq", "stackVecGo_eq", "stackVecCoded_eq", "blockOfVec_spec",
+    "arange_spec", "arange_indices", "arange_rejects", "full_spec", "makeTensor_wf", "makeMatrix_wf", "makeVector_wf",
+    "makeFullTensor_wf",
+]] + [NS + "Store." + t for t in [
+    # heap model of the three storages (Model/TensorStorage.lean): primitives
+    "read_in_bounds", "read_length", "read_getElem?", "cell_write", "read_write_same", "read_write_disjoint",
+    "read_write_some", "read_after_write", "alloc_ptr", "buf_alloc_old", "read_alloc_new", "read_alloc_keep",
+    "buf_free_other", "buf_free_same", "read_free_same", "read_free_other", "fwd_getElem?", "fwd_eq_splice", "succ_mod_cases", "fwd_periodic",
+    # conversions / assignments / copies / moves / resizes
+    "count_of_okMem", "ok_of_okMem", "read_add", "alloc_then_free",
+    "memCopy_elems", "memCopy_succeeds", "memCopy_frame", "memCopy_fresh", "memCopy_others",
+    "copy_independent_of_writes_to_copy", "copy_independent_of_writes_to_source",
+    "memAssignView_elems", "memAssignView_succeeds", "memAssignView_fresh", "memAssignView_frame",
+    "memAssignView_stale_view_dangles", "memAssignView_others",
+    "memResize_same_count", "memResize_same_count_elems", "memResize_other_count",
+    "memAssignMem_same_count", "memAssignMem_other_count",
+    "write_in_bounds", "obj_write_succeeds", "okMem_write", "assignExpr_mem", "assignExpr_map",
+    "memMoveCtor_spec", "memMoveCtor_source_unusable", "memMoveAssign_spec", "memMoveAssign_source_okMem_iff",
+    "mapAssign_elems", "mapAssign_src_dims", "mapAssign_bigger_source", "mapAssign_overlap", "mapAssign_overlap_witness",
+    "mapAssign_smaller_source_witness", "mapAssign_shape_witness",
+    # the ownership invariant over every history
+    "inv_heap", "inv_set", "inv_construct", "inv_assign_mem", "inv_assignObj", "inv_moveCtor", "inv_moveAssign", "inv_init",
+    "step_inv", "run_inv",
+    # views of any storage tied to the addressing theorems; headline
+    "obj_view_elems", "obj_slice_elems", "obj_sub_elems", "obj_reshape_elems", "viewOf_elems", "assign_preserves_elements",
+    "write_alias_exact",
 ]]
 TRUSTED = [
     "Lean 4.33.0 kernel (core library only for this property; no Mathlib import)",
     "axioms: at most propext, Classical.choice, Quot.sound (audited per theorem on every run)",
-    "hand-written model NanoVerif/Model/Tensor.lean + Model/TensorView.lean of dims.h/tensor.h/storage.h/integral.h/algorithm.h/"
-    "stack.h; tied to the code by the correspondence run (harness/c16.cpp on the real headers vs the compiled Lean driver, "
+    "hand-written model NanoVerif/Model/Tensor.lean + Model/TensorView.lean + Model/TensorStorage.lean (heap model of the three "
+    "storages, incl. what Eigen 3.4's DenseStorage does for the defaulted copy / move / resize of the owning storage) + "
+    "Model/TensorRange.lean of dims.h/range.h/tensor.h/storage.h/integral.h/algorithm.h/stack.h; tied to the code by the correspondence run (harness/c16.cpp on the real headers vs the compiled Lean driver, "
     "exact comparison)",
     "tools/props/c16.py generator + naive nested-loop oracle; harness/c16.cpp; g++/libstdc++/Eigen",
 ]
@@ -44,6 +74,11 @@ ASSUMPTIONS = [
     "the model's assignment `owning = view` is a pure function of the buffer before the assignment (no aliasing in the model): "
     "that the implementation agrees also when the view points into the destination's own buffer is what the aslice/asub/"
     "areshape ops with destination `self` test",
+    "heap model: an allocation is identified by a number that is never re-used (the C allocator may hand out the same address "
+    "again; a program that relies on that is already outside the model: it uses a dangling map); uninitialised elements are a "
+    "fixed junk value the generator never observes; histories are only generated where the naive python semantics finds every "
+    "used object usable (no released memory, no moved-from contents) and `map = map` overlaps only in the direction the "
+    "ascending copy supports — the other direction is covered by the model-level witness mapAssign_overlap_witness, not run",
     "mixed-type integral: conversions input -> output scalar are exact for the generated pairs (output at least as wide); int32/"
     "int64 outputs are modelled as 32/64-bit two's-complement arithmetic (signed overflow is formally undefined in C++; the "
     "generator keeps every sum inside the output type), binary64 outputs as exact integers below 2^53",
@@ -58,6 +93,10 @@ RULE = ("exhaustive small shapes (quick: rank 1-3 dims 0..4, rank 4 dims 0..3, r
         "a constant map, the range overload; element types i64/i32/i16), writes through tensor()/vector()/array()/matrix()/slice() "
         "views, gathers into provided outputs (right shape via the map overload, other size, same element count with other dims, the "
         "same output twice) and integrals for 13 (input, output) scalar pairs with values at the end of the input type's range; "
+        "histories on owners + maps + constant maps (ranks 1-5, zero-sized dims included, i64/i32): 10 directed scenarios (t = own slice, "
+        "map at an offset = tensor, same-count resize, owner = owner, copy independence, moves, overlapping map = map, raw maps, expression assignment, and — outside the contract, as coded — map = bigger tensor) "
+        "and random histories of 4-18 ops (new/fill/ctor/move-ctor/assign/move-assign/resize/slice/reshape/raw/drop, ranks 1-2 also assignment of an Eigen expression) with queries of "
+        "dims, pointer identity (owning slot + offset) and elements; remove_if over two tensors, full/zero through a slice, arange; "
         "a case is non-trivial when size > 1 and some dimension is not 1; distinct by op text")
 FLAVOUR = {"quick": "plain", "thorough": "asan"}
 # the quick tier is not an ASan build: glibc's allocator is asked to overwrite every released block (perturb) and to
@@ -221,6 +260,21 @@ def gen(rng, tier):
     # matrix form of stack: gap-free layouts of 1..4 blocks (block-rows of equal height whose widths fill the columns)
     for _ in range(150 if tier == "quick" else 1500):
         ops.append(stackmat_op(rng))
+    # histories on owners + views of the three storages (heap model): directed scenarios, then random histories
+    for k in range(1600 if tier == "quick" else 8000):
+        rank = 1 + k % 5
+        ops.append(c16_hist.scenario(rng, rank, "i64" if k % 3 else "i32", (k // 5) % c16_hist.NSCEN))
+    for k in range(1500 if tier == "quick" else 8000):
+        ops.append(c16_hist.random_history(rng, 1 + k % 5, "i64" if k % 2 else "i32"))
+    # remove_if over two tensors, full / zero through a slice, arange
+    for k in range(300 if tier == "quick" else 2000):
+        rank = 1 + k % 4
+        dims = [rng.range(0, 6)] + [rng.range(0, 3) for _ in range(rank - 1)]
+        ops.append(f"tensor removeifn {lst(dims)} {lst([rng.below(2) for _ in range(dims[0])])}")
+        b = rng.range(0, dims[0]); e = rng.range(b, dims[0])
+        ops.append(f"tensor full {lst(dims)} {b} {e} {0 if rng.chance(0.4) else rng.range(-9, 9)}")
+        lo = rng.range(-20, 20)
+        ops.append(f"tensor arange {lo} {lo + (0 if rng.chance(0.1) else rng.range(0, 12))}")
     return ops
 
 
@@ -370,6 +424,10 @@ def nontrivial(op):
     t = Toks(op); t.s(); o = t.s()
     if o == "stackvec":
         return True
+    if o == "hist":
+        return any(w in op for w in (" assign ", " massign ", " ctor ", " mctor ", " resize "))
+    if o == "arange":
+        return t.int() + 1 < t.int()
     if o == "stackmat":
         rows = t.int(); cols = t.int(); nb = t.int()
         return rows * cols > 1 and nb > 1
@@ -381,6 +439,9 @@ def distribution(ops):
     d = {}
     for op in ops:
         t = op.split()
+        if t[1] == "arange":
+            d["arange"] = d.get("arange", 0) + 1
+            continue
         k = f"{t[1]}/rank{t[2]}" if t[1] not in ("stackvec", "stackmat") else (t[1] if t[1] == "stackvec" else f"stackmat/{t[4]}blocks")
         d[k] = d.get(k, 0) + 1
     return d
@@ -394,9 +455,14 @@ def read_tensor(r):
 def oracle(op, res):
     """independent naive evaluation of the property statement on the implementation's answer"""
     t = Toks(op); t.s(); o = t.s()
+    if o == "hist":
+        return c16_hist.oracle(op, res)
     r = Toks(res)
     if r.s() != "ok":
         return f"implementation did not answer ok: {res[:80]}"
+    if o == "arange":
+        lo = t.int(); hi = t.int(); got = r.ints()
+        return None if got == list(range(lo, hi)) else f"arange({lo}, {hi}) = {got}"
     if o == "stackvec":
         n = t.int(); nb = t.int(); blocks = [t.ints() for _ in range(nb)]
         got = r.ints()
@@ -572,6 +638,17 @@ def oracle(op, res):
             return (f"summed-area table {ity}->{oty} differs from the exact prefix sums at offset {bad}: "
                     f"{data[bad] if bad < len(data) else None} vs {want[bad]}")
         return None
+    if o == "removeifn":
+        mask = t.ints(); kept = r.int(); data = r.ints(); vec = r.ints()
+        inner = prod(dims[1:])
+        rows = [i for i in range(dims[0]) if not mask[i]]
+        want = [(i * inner + j) % 100 for i in rows for j in range(inner)]
+        ok = kept == len(rows) and data == want and vec == [1000 + i for i in rows]
+        return None if ok else "remove_if over two tensors did not compact both with the same kept sub-tensors"
+    if o == "full":
+        b = t.int(); e = t.int(); v = t.int(); sd, data = read_tensor(r)
+        want = [(v if b <= idx[0] < e else horner(dims, idx) + 1) for idx in itertools.product(*[range(d) for d in dims])]
+        return None if sd == dims and data == want else "full / zero through a slice did not set exactly the viewed elements"
     if o == "convert":
         a = r.int(); s = r.int(); sd, data = read_tensor(r)
         ok = a == 1 and s == 1 and sd == dims and data == [k % 100 for k in range(n)]
@@ -581,6 +658,8 @@ def oracle(op, res):
 
 def classify(op, kind, detail):
     t = op.split()
+    if len(t) > 1 and t[1] == "hist":
+        return "hist/allocation-kept" if detail and "as-coded" in str(detail) else "hist"
     if len(t) > 1 and t[1] in ("aslice", "asub", "areshape"):
         # <op>/<self or other destination>: an aliasing failure is a different call site from a plain conversion failure
         return f"{t[1]}/{'self' if t[-2] == 'self' else 'other'}"
@@ -593,6 +672,9 @@ def classify(op, kind, detail):
 def shrink_candidates(op):
     """smaller variants of a failing assignment / integral op (each line is self-contained)"""
     t = Toks(op); t.s(); o = t.s()
+    if o == "hist":
+        yield from c16_hist.shrink(op)
+        return
     if o not in ("aslice", "integralx"):
         return
     dims = t.ints()
